@@ -1,5 +1,183 @@
-(* C16 — all four input syntaxes yield the same driver. *)
+(* C16 — all four input syntaxes yield the same driver.
+
+   Modelled (Front.v): the two LOWERINGS — dsl_hir::mir_transform (lower_dsl, on the HIR the syn parser delivers)
+   and manifest::transform (lower_manifest, on the value tree shared by JSON / YAML / TOML) — and the renderers
+   to_dsl / to_manifest from an abstract definition [adef], whose nodes carry the STRUCTURAL spelling choices
+   (DSL item order, a..b / a..=b, `command X = a` / `command X`, variant as bare value or map, null / absent value,
+   TOML's `{}` for null).  Text parsing (syn, serde_json, yaml-rust2, toml; integer radices, RW/ReadWrite, boundary-name
+   case, cfg token spacing) and descriptions are NOT modelled: tools/checks/c16.py ties them on every run.
+   [lf] is convert_case's Boundary::list_from, external to and shared by both front ends.
+   [adef_ok d] = "expressible in all four syntaxes": integers in the common ranges (i64 addresses/strides, u32
+   sizes/bit positions, u64 counts and reset integers, i64 enum values, byte arrays), no variant called `name` /
+   `description`, no top-level object called `config`, valid boundary names, and no single-address non-bool field
+   (the one documented front-end specific class, C16_nonbool_single_is_dsl_specific). *)
 From Coq Require Import ZArith List Bool String.
-From DD Require Import Common Mir GenErr Front FrontProofs.
+From DD Require Import Common Mir GenErr Layout Front FrontProofs FrontProofsM.
 Import ListNotations.
 Open Scope Z_scope.
+
+(* FULL statement (the defaults hypothesis of the design is gone since commit df2c08c): for every abstract
+   definition and every spelling, the DSL front end and the manifest front end produce the SAME MIR, or both reject;
+   when both reject, the error classes coincide and are one of missing-address/size, ref of a buffer, ref of a ref,
+   forbidden item on a ref override. *)
+Theorem C16_front_ends_agree : forall lf toml d,
+  adef_ok d = true ->
+  (forall m, lower_dsl (to_dsl lf d) = ROk m <-> lower_manifest lf (to_manifest toml d) = ROk m) /\
+  (forall e1 e2, lower_dsl (to_dsl lf d) = RErr e1 -> lower_manifest lf (to_manifest toml d) = RErr e2 ->
+                 err_class e1 = err_class e2 /\ In (e_kind (err_class e1)) front_end_classes).
+Proof.
+  intros lf toml d H. destruct (agree_unpack _ _ (front_ends_agree lf toml d H)) as [A B]. split; [exact A|].
+  intros e1 e2 H1 H2. split; [exact (B e1 e2 H1 H2)|].
+  exact (rejection_classes lf toml d e1 H (or_introl H1)).
+Qed.
+
+(* both front ends compute the meaning [spec_device] of the definition, which never looks at a spelling field:
+   re-spelling a definition changes nothing *)
+Theorem C16_both_implement_the_meaning : forall lf toml d,
+  adef_ok d = true ->
+  class_of (lower_dsl (to_dsl lf d)) = class_of (spec_device lf d) /\
+  class_of (lower_manifest lf (to_manifest toml d)) = class_of (spec_device lf d).
+Proof. intros lf toml d H. split; [exact (dsl_half lf d (adef_ok_objects d H))|exact (manifest_half lf toml d H)]. Qed.
+
+(* the rest of the pipeline is one function of the MIR (generation/src/lib.rs transform_mir): equal MIR gives the
+   identical output; a rejection gives the same decision and class *)
+Theorem C16_same_decision_and_output : forall (T : Type) (transform_mir : device -> T) lf toml d,
+  adef_ok d = true ->
+  finish transform_mir (lower_dsl (to_dsl lf d)) = finish transform_mir (lower_manifest lf (to_manifest toml d)).
+Proof. exact same_decision_and_output. Qed.
+
+(* every global default reaches registers / fields / buffers / bit order in BOTH front ends (what D5 violated) *)
+Theorem C16_defaults_applied : forall lf toml d m,
+  adef_ok d = true ->
+  (lower_dsl (to_dsl lf d) = ROk m \/ lower_manifest lf (to_manifest toml d) = ROk m) ->
+  spec_device lf d = ROk m /\
+  let c := a_config d in let g := d_config m in
+  g_default_register_access g = or_default (ac_default_register_access c) RW /\
+  g_default_field_access g = or_default (ac_default_field_access c) RW /\
+  g_default_buffer_access g = or_default (ac_default_buffer_access c) RW /\
+  g_default_bit_order g = or_default (ac_default_bit_order c) BiLSB0 /\
+  g_default_byte_order g = ac_default_byte_order c /\
+  (forall h r reg, spec_register g h r = ROk reg ->
+     rg_access reg = or_default (ar_access r) (g_default_register_access g) /\
+     rg_bit_order reg = or_default (ar_bit_order r) (g_default_bit_order g) /\
+     rg_fields reg = map (spec_field g) (ar_fields r)) /\
+  (forall h k cmd, spec_command g h k = ROk cmd ->
+     cm_bit_order cmd = or_default (ak_bit_order k) (g_default_bit_order g) /\
+     cm_in_fields cmd = map (spec_field g) (or_default (ak_fields_in k) []) /\
+     cm_out_fields cmd = map (spec_field g) (or_default (ak_fields_out k) [])) /\
+  (forall h b buf, spec_buffer g h b = ROk buf ->
+     bf_access buf = or_default (ab_access b) (g_default_buffer_access g)) /\
+  (forall f, f_access (spec_field g f) = or_default (af_access f) (g_default_field_access g)).
+Proof.
+  intros lf toml d m Hok H. pose proof (front_end_mir_is_spec lf toml d m Hok H) as Hs. split; [exact Hs|].
+  unfold spec_device in Hs.
+  destruct (mapR (spec_object (spec_config lf (a_config d))) (a_objects d)); cbn in Hs; [|discriminate].
+  inversion Hs; subst. cbn [d_config]. exact (spec_applies_defaults lf (a_config d) _ eq_refl).
+Qed.
+
+(* not vacuous: the lowering as it was BEFORE the fix (records initialised with Default::default()) differs from the
+   DSL on a definition with default_register_access = RO — while the current lowering agrees on it *)
+Theorem C16_defaults_ignored_would_differ :
+  adef_ok d5_witness = true /\
+  (exists m1 m2, lower_dsl (to_dsl no_lf d5_witness) = ROk m1 /\
+                 lower_manifest_nodefaults no_lf (to_manifest false d5_witness) = ROk m2 /\ m1 <> m2) /\
+  lower_manifest no_lf (to_manifest false d5_witness) = lower_dsl (to_dsl no_lf d5_witness).
+Proof. exact defaults_ignored_would_differ. Qed.
+
+(* the lowering's find_map takes the FIRST item of a kind; an item appended after it is ignored.  Manifests cannot
+   express this (a map has one value per key) — and the DSL PARSER refuses a repeated item ("duplicate item found",
+   dsl_hir/mod.rs err_if_contains; tied by stream D of the check), so such lists never reach the lowering. *)
+Theorem C16_dsl_first_item_wins :
+  (forall (A B : Type) (p : A -> option B) l1 i l2 v,
+     find_map p l1 = None -> p i = Some v -> find_map p (l1 ++ i :: l2) = Some v) /\
+  (forall g attrs name items fields a a',
+     find_map pick_r_access items = Some a ->
+     dsl_register g attrs name (items ++ [RIAccess a']) fields = dsl_register g attrs name items fields /\
+     (forall r, dsl_register g attrs name items fields = ROk r -> rg_access r = a)).
+Proof. split; [intros; apply find_map_first_wins; assumption|exact dsl_duplicate_access_ignored]. Qed.
+
+(* the one front-end specific class: a non-bool field with a single address is an error of the DSL lowering; the
+   manifest lowering delivers the empty range start..start (rejected later by bit_ranges_validated, see the Example) *)
+Theorem C16_nonbool_single_is_dsl_specific : forall toml g f,
+  field_ok f = true -> field_single_nonbool f = true ->
+  dsl_field g (field_to_dsl f) = RErr (mk_err "dsl_nonbool_single" [af_name f]) /\
+  (exists mf, m_field (g_default_field_access g) (field_to_m toml f) = ROk mf /\
+              f_start mf = f_end mf /\ is_bool_base (f_base mf) = false).
+Proof. exact nonbool_single_field. Qed.
+
+(* ---- non-vacuity ---- *)
+
+Definition ex_head (n : string) : ahead := {| h_cfg := None; h_doc := false; h_name := n |}.
+Definition ex_field (n : string) (b : base_type) (s : Z) (e : option Z) (conv : option (aconv * bool)) (incl : bool) : afield :=
+  {| af_cfg := None; af_name := n; af_access := None; af_base := b; af_conv := conv; af_start := s; af_end := e;
+     af_incl := incl |}.
+Definition ex_enum : aconv :=
+  ACEnum "En" [{| av_cfg := None; av_name := "Va"; av_value := EVUnspec; av_map_form := false; av_omit_value := false |};
+               {| av_cfg := Some "foo"; av_name := "Vb"; av_value := EVSpec 3; av_map_form := false; av_omit_value := false |};
+               {| av_cfg := None; av_name := "Vc"; av_value := EVDefault; av_map_form := true; av_omit_value := true |}].
+Definition ex_reg (addr : option Z) (fs : list afield) (order : list nat) : aregister :=
+  {| ar_access := None; ar_byte_order := Some BoBE; ar_bit_order := None; ar_address := addr; ar_size_bits := Some 16;
+     ar_reset := Some (RArr [0; 1]); ar_repeat := Some {| r_count := 2; r_stride := -4 |};
+     ar_allow_bit_overlap := Some true; ar_allow_address_overlap := None; ar_fields := fs; ar_order := order |}.
+Definition ex_cmd : acommand :=
+  {| ak_byte_order := None; ak_bit_order := None; ak_address := Some 7; ak_size_in := None; ak_size_out := None;
+     ak_repeat := None; ak_allow_bit_overlap := None; ak_allow_address_overlap := None; ak_fields_in := None;
+     ak_fields_out := None; ak_order := []; ak_basic := true; ak_bare := false |}.
+Definition ex_config : aconfig :=
+  {| ac_default_register_access := Some RO; ac_default_field_access := Some WO; ac_default_buffer_access := Some RO;
+     ac_default_byte_order := Some BoLE; ac_default_bit_order := Some BiMSB0; ac_register_address_type := Some II16;
+     ac_command_address_type := Some IU8; ac_buffer_address_type := Some IU32;
+     ac_name_word_boundaries := Some (NwbArray ["Underscore"; "Hyphen"]); ac_defmt_feature := Some "defmt" |}.
+Definition ex_objects (addr : option Z) (e : option Z) : list aobject :=
+  [ABlock (ex_head "Bl") (Some 100) (Some {| r_count := 3; r_stride := 16 |}) [1; 0]%nat
+     [ARegister (ex_head "Ra") (ex_reg addr [ex_field "alpha" BUint 0 e (Some (ex_enum, true)) true;
+                                             ex_field "beta" BBool 9 None None false] [8; 7; 6; 5; 4; 3; 2; 1; 0]%nat);
+      ABuffer (ex_head "Ba") {| ab_access := None; ab_address := Some 3 |}];
+   ACommand (ex_head "Ca") ex_cmd;
+   ARef {| h_cfg := Some "foo"; h_doc := true; h_name := "Rr" |}
+        (ARegister (ex_head "Ra") {| ar_access := Some WO; ar_byte_order := None; ar_bit_order := None;
+                                     ar_address := Some 50; ar_size_bits := None; ar_reset := Some (RInt 5);
+                                     ar_repeat := None; ar_allow_bit_overlap := None;
+                                     ar_allow_address_overlap := Some true; ar_fields := []; ar_order := [2; 1]%nat |})].
+Definition ex_def (addr e : option Z) : adef := {| a_config := ex_config; a_objects := ex_objects addr e |}.
+
+(* a nested, fully featured definition is well formed, accepted by both front ends with the same 3-object MIR in
+   which the defaults arrived (register RO, field WO, buffer RO, MSB0), for JSON/YAML and for TOML spellings *)
+Example C16_accepted_example :
+  adef_ok (ex_def (Some 4) (Some 8)) = true /\
+  lower_dsl (to_dsl no_lf (ex_def (Some 4) (Some 8))) = lower_manifest no_lf (to_manifest false (ex_def (Some 4) (Some 8))) /\
+  lower_dsl (to_dsl no_lf (ex_def (Some 4) (Some 8))) = lower_manifest no_lf (to_manifest true (ex_def (Some 4) (Some 8))) /\
+  match lower_dsl (to_dsl no_lf (ex_def (Some 4) (Some 8))) with
+  | ROk {| d_objects := [OBlock _ _ 100 _ [ORegister r; OBuffer b]; OCommand _; ORef (Some _) _ (OvRegister _ (Some WO) _ true _ _)] |} =>
+      rg_access r = RO /\ rg_bit_order r = BiMSB0 /\ bf_access b = RO /\
+      map f_access (rg_fields r) = [WO; WO] /\ map f_end (rg_fields r) = [8; 9]
+  | _ => False
+  end.
+Proof. vm_compute. repeat split; reflexivity. Qed.
+
+(* a rejected one: the register lacks its address — both reject, different messages, same class *)
+Example C16_rejected_example :
+  adef_ok (ex_def None (Some 8)) = true /\
+  lower_dsl (to_dsl no_lf (ex_def None (Some 8))) = RErr (mk_err "dsl_missing" ["Register"; "Ra"; "address"]) /\
+  lower_manifest no_lf (to_manifest false (ex_def None (Some 8))) = RErr (mk_err "manifest_missing" ["Register"; "address"]) /\
+  err_class (mk_err "dsl_missing" ["Register"; "Ra"; "address"]) = err_class (mk_err "manifest_missing" ["Register"; "address"]).
+Proof. vm_compute. repeat split; reflexivity. Qed.
+
+(* the DSL-specific class end to end: single address on a uint field — not adef_ok, the DSL lowering rejects, the
+   manifest lowering accepts and the layout pass (Layout.v, C11) rejects the empty field *)
+Example C16_nonbool_single_example :
+  adef_ok (ex_def (Some 4) None) = false /\
+  lower_dsl (to_dsl no_lf (ex_def (Some 4) None)) = RErr (mk_err "dsl_nonbool_single" ["alpha"]) /\
+  match lower_manifest no_lf (to_manifest false (ex_def (Some 4) None)) with
+  | ROk m => exists e, layout_check m = Some e /\ e_kind e = "field_empty"%string
+  | RErr _ => False
+  end.
+Proof. vm_compute. repeat split; try reflexivity. eexists; split; reflexivity. Qed.
+
+Print Assumptions C16_front_ends_agree.
+Print Assumptions C16_both_implement_the_meaning.
+Print Assumptions C16_same_decision_and_output.
+Print Assumptions C16_defaults_applied.
+Print Assumptions C16_defaults_ignored_would_differ.
+Print Assumptions C16_dsl_first_item_wins.
+Print Assumptions C16_nonbool_single_is_dsl_specific.
